@@ -728,6 +728,7 @@ def run_c19_frames(scn, stats, sigs):
             if P.world.log != Q.world.log:
                 raise Violation('C19', 'C19/%s-vs-%s/ports' % (p, q), 'port logs differ after %s at frame-T=%d: %s vs %s' % (tpl[0], t, P.world.log, Q.world.log))
             extra = (gQ[T] - t_abs) - (gP[T] - t_abs)
+            stats['sim_tstates'] = stats.get('sim_tstates', 0) + gQ[T] - t_abs
             want = sh.ula.total_delay(t, info.cycles, o7)
             if want:
                 bump('probe:contended_delay_nonzero')
